@@ -58,6 +58,7 @@ type HistOpts struct {
 	WStopRel     int
 	WRead        int
 	WReload      int    // weight of definition reload operations (C16)
+	ReloadPipe   string // if set, reloads only ever change / remove this pipeline (the others keep an unchanged definition)
 	WSave        int    // weight of explicit SaveToStore operations (needs StoreDir)
 	StoreDir     string // if set the runner persists to a real JsonDataStore in this directory (wrapped by a recording store)
 	RichVars     bool   // job variables are arbitrary JSON values
@@ -126,6 +127,7 @@ type seqRun struct {
 	removed      []gen.PipeSpec  // pipelines removed by a reload (may be re-added)
 	fired        map[string]bool // jobs whose delay was fired by the driver
 	everRemoved  map[string]bool // pipelines that did not remain defined throughout the history
+	changedPipes map[string]bool // pipelines whose definition a reload edited
 	maxConc      map[string]int  // largest concurrency in force for a pipeline during the history
 	flaggedOrder map[string]bool
 	finishedAt   map[string]int // step at which the model saw the job finished / canceled
@@ -241,6 +243,30 @@ func RunHistory(seed int64, o HistOpts) *HistResult {
 	if rec != nil && !q.dead {
 		q.checkRestarts()
 	}
+	if q.reloaded {
+		// C06 speaks about jobs that wait and start under an UNCHANGED definition: order findings about pipelines whose
+		// definition was edited, removed or re-added are dropped; those about untouched pipelines stay
+		var keep []Finding
+		for _, f := range res.Findings {
+			drop := false
+			if strings.HasPrefix(f.Sig, "C06:") {
+				for p := range q.changedPipes {
+					if strings.HasPrefix(f.Detail, "pipeline "+p+":") {
+						drop = true
+					}
+				}
+				for p := range q.everRemoved {
+					if strings.HasPrefix(f.Detail, "pipeline "+p+":") {
+						drop = true
+					}
+				}
+			}
+			if !drop {
+				keep = append(keep, f)
+			}
+		}
+		res.Findings = keep
+	}
 	res.Ops = q.step - 1
 	res.Jobs = len(q.jobs)
 	res.Events = sys.Log.Len()
@@ -325,6 +351,9 @@ func (q *seqRun) doOp() {
 	}
 	if q.o.WReload > 0 {
 		w[opRaceReload] = (q.o.WReload + 2) / 3
+		if q.o.ReloadPipe != "" {
+			w[opRaceReload] = 0 // (that operation edits the very pipeline it schedules)
+		}
 	}
 	if len(runningTasks) > 0 {
 		w[opFinish] = q.o.WFinish
@@ -458,6 +487,17 @@ func (q *seqRun) opReload() {
 			descs = append(descs, "re-add "+sp.Name)
 		case len(q.specs) > 1 && q.r.Intn(8) == 0:
 			k := q.r.Intn(len(q.specs))
+			if q.o.ReloadPipe != "" {
+				k = -1
+				for i := range q.specs {
+					if q.specs[i].Name == q.o.ReloadPipe {
+						k = i
+					}
+				}
+				if k < 0 {
+					continue
+				}
+			}
 			sp := q.specs[k]
 			q.specs = append(q.specs[:k:k], q.specs[k+1:]...)
 			q.removed = append(q.removed, sp)
@@ -468,6 +508,22 @@ func (q *seqRun) opReload() {
 			descs = append(descs, "remove "+sp.Name)
 		default:
 			k := q.r.Intn(len(q.specs))
+			if q.o.ReloadPipe != "" {
+				k = -1
+				for i := range q.specs {
+					if q.specs[i].Name == q.o.ReloadPipe {
+						k = i
+					}
+				}
+				if k < 0 {
+					descs = append(descs, "nothing ("+q.o.ReloadPipe+" is not defined)")
+					continue
+				}
+			}
+			if q.changedPipes == nil {
+				q.changedPipes = map[string]bool{}
+			}
+			q.changedPipes[q.specs[k].Name] = true
 			ns, d := gen.MutateSpec(q.r, q.specs[k])
 			q.specs[k] = ns
 			descs = append(descs, q.specs[k].Name+": "+d)
